@@ -1,4 +1,4 @@
-From QV Require Import model.Base model.Names model.Header proofs.HeaderProofs props.C16.
+From QV Require Import model.Base model.Names model.Lang model.Types model.Tir model.Passes model.Header proofs.HeaderProofs proofs.PropdepProofs props.C16.
 Open Scope nat_scope.
 Check (C16_suffixes_distinct : forall ps l, function_suffixes ps = Ok l -> NoDup l).
 Check (C16_suffixes_total : forall ps, exists l, function_suffixes ps = Ok l /\ length l = length ps).
@@ -7,6 +7,9 @@ Check (C16_indices_distinct : forall n, NoDup (binding_indices n) /\ length (bin
 Check (C16_guard_covers : forall n i, i < n -> guard_word i < guard_words n /\ guard_bit i < 32).
 Check (C16_guard_nonempty : forall n, 0 < n -> 0 < guard_words n).
 Check (C16_guard_bits_distinct : forall i j, guard_word i = guard_word j -> guard_bit i = guard_bit j -> i = j).
+Check (C16_observer_slots : forall E c c' ds, analyze_code_property_dependency E c = Ok (c', ds) ->
+  Forall (fun b => no_observe (b_stmts b)) (c_blocks c) ->
+  flat_map (fun b => observe_handles (b_stmts b)) (c_blocks c') = seq (c_nobs c) (c_nobs c' - c_nobs c)).
 Check (C16_literal_denotes_source : forall s, Forall valid_scalar s -> read_literal (spell s) = Some s).
 Check (C16_rust_debug_refuted : read_literal (rust_debug [1%N]) = None /\ read_literal (rust_debug [0%N; 49%N]) = Some [1%N] /\ read_literal (rust_debug [127%N]) = None).
 Check (eq_refl : read_literal [92; 110; 97; 92; 49; 48; 49; 92; 117; 48; 48; 101; 57]%N = Some [10; 97; 65; 233]%N).
